@@ -187,6 +187,25 @@ Proof.
       destruct (IH sx s' H Hne) as (m & Hin & Hm). exists m. split; [right|]; auto.
 Qed.
 
+Lemma handle_leaf_effect s m s' :
+  handle_leaf s m = Some s' -> (root s', contracts s') = apply_edit (root s, contracts s) m.
+Proof.
+  destruct m as [a sd cs wf | sd n | k sd pv | ge ms]; simpl; try discriminate.
+  - destruct a; try discriminate; destruct ((sd =? root s) && wf); try discriminate;
+      intro H; inversion H; subst; reflexivity.
+  - destruct (sd =? root s); try discriminate. intro H; inversion H; subst; reflexivity.
+  - destruct (permitted s sd && pv); try discriminate. intro H; inversion H; subst. destruct k; reflexivity.
+Qed.
+
+Lemma run_leaves_effect : forall l s s',
+  run_leaves s l = Some s' -> (root s', contracts s') = apply_edits l (root s, contracts s).
+Proof.
+  induction l as [|x r IH]; intros s s' H; simpl in H.
+  - inversion H; subst. reflexivity.
+  - destruct (handle_leaf s x) as [sx|] eqn:Hx; try discriminate.
+    unfold apply_edits. simpl. rewrite <- (handle_leaf_effect _ _ _ Hx). apply IH. exact H.
+Qed.
+
 (* ------------------------------------------------------------------ single messages *)
 
 Lemma single_leaf_leaves : forall m l, single_leaf m = Some l -> leaves m = [l] /\ is_leaf l = true.
@@ -460,7 +479,7 @@ Lemma model_step_P g s tx :
 Proof.
   destruct (deliver g s tx) as [s' ok] eqn:D. simpl.
   unfold step_P, model_obs; simpl.
-  split; [|split; [|split; [|split; [|split; [|split]]]]].
+  split; [|split; [|split; [|split; [|split; [|split; [|split]]]]]].
   - intro Hk. subst ok. pose proof (deliver_rejected g s tx) as Hr. rewrite D in Hr. simpl in Hr.
     rewrite (Hr eq_refl). unfold unchanged; simpl. rewrite !Nat.eqb_refl.
     repeat split; auto. apply sudoers_eqb_spec. split; auto.
@@ -470,6 +489,8 @@ Proof.
       assert (sudoers_eqb s s' = true) by (apply sudoers_eqb_spec; split; auto). congruence. }
     pose proof (deliver_sudoers_change g s tx) as H. rewrite D in H. simpl in H.
     destruct (H Hne) as [_ Hex]. exact Hex.
+  - intro Hk. subst ok. apply deliver_ok in D as [_ R]. apply run_msgs_flatten in R.
+    apply run_leaves_effect. exact R.
   - intros m l Htx Hl Hok. subst tx ok.
     apply single_leaf_leaves in Hl as [Hl1 Hl2].
     destruct (deliver_each_leaf_authorised g s [m] s' D [] l []) as (s1 & H1 & Ha).
